@@ -7,7 +7,7 @@ set -u
 P=$(readlink -f $1); ID=$2; TIER=${3:-quick}; WT=/tmp/try_wt_$$
 git -C /repo worktree add -q --detach $WT HEAD || exit 3
 git -C $WT apply "$P" || { echo "patch does not apply"; git -C /repo worktree remove --force $WT; exit 3; }
-cd /verif
+cd "$(dirname "$(dirname "$(readlink -f "$0")")")"
 OKDMR_REPO=$WT ./check $ID --tier $TIER --no-selfcheck --no-evidence > /tmp/try_mutant.$$.log 2>&1; rc=$?
 git -C /repo worktree remove --force $WT
 grep -E "^(VIOLATION|INCONCLUSIVE|  violated|C[0-9]+ )" /tmp/try_mutant.$$.log | cut -c1-260 | head -${LINES_MAX:-8}
